@@ -49,10 +49,10 @@ PROP_C13 = ["NonConvergenceRaises", "ConvergedStops", "PolyakUpdate", "ErrorIsRe
 OBS_C12 = ["ObsDtPositive", "ObsDtAtMostMax", "ObsNonAdaptiveDtIsInit"]
 OBS_C13 = ["ObsNoScreeningInducedZero", "ObsFrameSelfConsistent"]
 
-SET_KEYS = ["Adaptives", "Screenings", "Windows", "RetrySet", "MulExps", "InitEs", "MaxEs", "Deltas", "MaxIters",
+SET_KEYS = ["Adaptives", "Screenings", "Windows", "RetrySet", "MulExps", "InitEs", "MaxE4s", "Deltas", "MaxIters",
             "TolExps", "AlphaExps", "BetaQs", "Kicks"]
 DEFAULT_BOUNDS = dict(Adaptives=[True], Screenings=[False], Windows=[1], RetrySet=[1], MulExps=[1], InitEs=[4],
-                      MaxEs=[1], Deltas=[0, 1024], MaxIters=[2], TolExps=[7], AlphaExps=[0], BetaQs=[4], Kicks=[1],
+                      MaxE4s=[5], Deltas=[0, 1024], MaxIters=[2], TolExps=[7], AlphaExps=[0], BetaQs=[4], Kicks=[1],
                       MaxSteps=4, MaxRefusals=2)
 
 
@@ -650,6 +650,52 @@ def validate(ctx, module, traces, cfg, what, describe, prepare=lambda t: t, max_
     return accepted
 
 
+CTL_INV = ["TypeOK", "RetriesBounded", "AcceptedStepConverged", "IterationsBounded", "NoScreeningNoInduced"]
+CTL_PROP = ["RetriesExhaustedRaises", "NonConvergenceRaises", "ConvergedStops"]
+
+
+def exact_cfg():
+    """Scripted replays: the full actions, every C12 and C13 clause evaluated in every state."""
+    return trace_cfg(sorted(set(INV_C12 + INV_C13)), sorted(set(PROP_C12 + PROP_C13)))
+
+
+def flags_cfg():
+    """Natural runs: control parts + relation flags; the clauses on control state and on the reported observations."""
+    return trace_cfg(CTL_INV + OBS_C12 + OBS_C13, CTL_PROP)
+
+
+def describe_trace(t):
+    if t["mode"] == "exact":
+        return "script: " + describe_script(dict(cfg=t["cfg"], hist=t["script"]["hist"]))
+    return "natural run: " + json.dumps(t["params"], sort_keys=True)
+
+
+def replay_file(ctx, path):
+    """`./check <ID> --replay <file>`: re-execute the recorded input on the current tree and re-validate it."""
+    from . import runfamily as rf
+
+    rec = json.load(open(path))
+    t = rec.get("trace")
+    if not t or "mode" not in t:
+        print(f"replay file {path} records a model-level or kernel-level case:\n{json.dumps(rec)[:3000]}")
+        return 1
+    if t["mode"] == "exact":
+        job = ("call", dict(module="harness.stepctl", func="replay_script",
+                            args=dict(cfg=t["cfg"], hist=t["script"]["hist"], raised=t["script"]["raised"], steps=t["script"]["steps"])))
+        cfg = exact_cfg()
+    else:
+        job = ("call", dict(module="harness.stepctl", func="natural_run", args=t["params"]))
+        cfg = flags_cfg()
+    traces = rf.replay_all(ctx, [job])
+    acc = validate(ctx, "StepCtlTrace", traces, cfg, f"{ctx.pid}/replay", describe_trace, prepare=strip_trace)
+    if acc:
+        print(f"replay: the recorded input is now accepted (property {ctx.pid} holds on it)")
+        return 0
+    for v in ctx.violations:
+        print(f"VIOLATION property={ctx.pid} replay={v['replay']}\n  what: {v['what']}")
+    return 1
+
+
 def canary(ctx, module, traces, accepted, cfg, mutate, what, prepare=lambda t: t):
     """Corrupt one accepted trace; TLC must reject it."""
     rnd = random.Random(ctx.seed)
@@ -668,9 +714,6 @@ def mut_exact_tent(t):
     """next tentative step off by one unit (2^-24) after a step where the rule applied"""
     if t["mode"] != "exact" or not t["cfg"]["adaptive"]:
         return None
-    for e in t["ev"]:
-        if e["ev"] == "return" and e["tent"] not in (BOT,):
-            last = e
     rets = [e for e in t["ev"] if e["ev"] == "return"]
     if len(rets) <= t["cfg"]["window"] + 1:
         return None
@@ -765,3 +808,115 @@ def mut_flags_nonzero(t):
             e["azero"] = False
             return t
     return None
+
+
+# --------------------------------------------------------------------------- shared driver for C12 / C13
+
+
+def prime(ctx):
+    """Populate the scratch copy of the spec directory once, so that concurrent TLC runs never copy files."""
+    import shutil
+
+    wd = ctx.tmp / "tlc"
+    wd.mkdir(parents=True, exist_ok=True)
+    for f in core.SPEC.glob("*.tla"):
+        dst = wd / f.name
+        if not dst.exists() or dst.stat().st_mtime < f.stat().st_mtime:
+            shutil.copy2(f, dst)
+
+
+def run_models(ctx, models, canaries, workers=5):
+    """models: (name, bounds, invariants, properties, required_actions); canaries: (switch, bounds, property);
+    all TLC runs concurrently.  Returns the results (raises what a run raised)."""
+    from concurrent.futures import ThreadPoolExecutor
+
+    prime(ctx)
+
+    def one(m):
+        name, b, inv, prop, req = m
+        return ctx.model_check("StepCtl", model_cfg(b, None, inv, prop), name=name, required_actions=req,
+                               timeout=3000, workers=workers)
+
+    def can(c):
+        sw, b, prop = c
+        cfg = model_cfg(b, {sw: True}, [], [prop]) if prop in PROP_C12 + PROP_C13 else model_cfg(b, {sw: True}, [prop], [])
+        return ctx.model_check("StepCtl", cfg, name=f"StepCtl[seeded {sw}, {prop}]", expect_violation=prop, count=False,
+                               workers=2, timeout=600)
+
+    with ThreadPoolExecutor(max_workers=5) as ex:
+        futs = [ex.submit(one, m) for m in models] + [ex.submit(can, c) for c in canaries]
+        return [f.result() for f in futs]
+
+
+def in_background(fn, *args):
+    from concurrent.futures import ThreadPoolExecutor
+
+    ex = ThreadPoolExecutor(max_workers=1)
+    fut = ex.submit(fn, *args)
+    ex.shutdown(wait=False)
+    return fut
+
+
+def canaries_concurrently(ctx, items):
+    """items: (module, traces, accepted, cfg, mutate, what, prepare)."""
+    from concurrent.futures import ThreadPoolExecutor
+
+    with ThreadPoolExecutor(max_workers=6) as ex:
+        futs = [ex.submit(canary, ctx, *it) for it in items]
+        for f in futs:
+            f.result()
+
+
+def export_many(ctx, exports, workers=4):
+    """exports: (name, bounds) -> list of scripts per export, run concurrently."""
+    from concurrent.futures import ThreadPoolExecutor
+
+    def one(e):
+        name, b = e
+        r = ctx.model_check("StepCtl", model_cfg(b, None, ["Emit"], view=False), name=f"StepCtl[export {name}]",
+                            timeout=3000, count=False, workers=workers)
+        out = []
+        for line in r.printed():
+            if line.startswith('"{'):
+                s = json.loads(json.loads(line))
+                s["steps"] = dict(DEFAULT_BOUNDS, **b)["MaxSteps"]
+                s["family"] = name
+                out.append(s)
+        return out
+
+    prime(ctx)
+    with ThreadPoolExecutor(max_workers=4) as ex:
+        return list(ex.map(one, exports))
+
+
+def script_relevance(s):
+    """A replayed behaviour is non-trivial when it contains a refusal, a screening iteration, or a step to which
+    the window rule applies."""
+    h = s["hist"]
+    answers = sum(1 for e in h if e["t"] == "A")
+    return (any(e["t"] in ("R", "K") for e in h) or (s["cfg"]["adaptive"] and s["steps"] > s["cfg"]["window"] + 1
+                                                     and answers > s["cfg"]["window"] + 1))
+
+
+def replay_and_validate(ctx, scripts, naturals, what, chunk=25):
+    """Run scripted replays and natural runs on the real code (process pool), validate all traces with TLC.
+    Returns (script traces, accepted ids, natural traces, accepted ids)."""
+    from . import runfamily as rf
+
+    jobs = []
+    for n in range(0, len(scripts), chunk):
+        jobs.append(("call", dict(module="harness.stepctl", func="replay_scripts", args=dict(scripts=scripts[n:n + chunk]))))
+    nchunks = len(jobs)
+    for p in naturals:
+        jobs.append(("call", dict(module="harness.stepctl", func="natural_run", args=p)))
+    # long natural runs first would be better for the pool; keep order simple and results aligned
+    res = rf.replay_all(ctx, jobs)
+    straces = [t for r in res[:nchunks] for t in r]
+    ntraces = res[nchunks:]
+    for s, t in zip(scripts, straces):
+        ctx.note_case(("script", describe_script(s)), script_relevance(s))
+    for t in ntraces:
+        ctx.note_case(("natural", json.dumps(t["params"], sort_keys=True)), t["stats"]["attempts"] > 0)
+    sacc = validate(ctx, "StepCtlTrace", straces, exact_cfg(), f"{what}/scripted", describe_trace, prepare=strip_trace) if straces else set()
+    nacc = validate(ctx, "StepCtlTrace", ntraces, flags_cfg(), f"{what}/natural", describe_trace, prepare=strip_trace) if ntraces else set()
+    return straces, sacc, ntraces, nacc
